@@ -86,6 +86,29 @@ def gen_text(rng, headers, depth=0, budget=14):
             out.append(f"#undef {rng.choice(FLAGS)}")
         elif r < 0.70:
             out.append("#pragma omp parallel")
+        elif r < 0.76:
+            # a directive whose physical extent contains a line that cleans to blank (comment-only or empty
+            # continuation, or a block comment opened on the directive line and closed on the next):
+            # num_lines counts fewer lines than the extent; node.lines must list the counted ones only
+            out += rng.choice([
+                [f"#define M{rng.randint(0, 99)}(x) \\", "    /* widen first */ \\", "    ((long)(x) * 4)"],
+                [f"#define N{rng.randint(0, 99)} 1 /* open", "   close */"],
+                [f"#define K{rng.randint(0, 99)} \\", "\\", "  2"],
+                [f"#undef {rng.choice(FLAGS)} /* gone", "   for good", "   now */"],
+                ["#pragma omp \\", "  /* c */ \\", "  parallel"],
+            ])
+        elif r < 0.79 and depth < 3:
+            f, g = rng.choice(FLAGS), rng.choice(FLAGS)
+            out += rng.choice([
+                [f"#if defined({f}) \\", "\\", f"  && !defined({g})"],
+                [f"#if defined({f}) /* pick the path;", "        the other is below */"],
+                [f"#ifdef {f} /* a", "  b */"],
+            ])
+            out += gen_text(rng, headers, depth + 1, budget // 2)
+            if rng.random() < 0.5:
+                out += rng.choice([["#else /* other", "  side */"], ["#else"]])
+                out += gen_text(rng, headers, depth + 1, budget // 3)
+            out.append("#endif")
         elif depth < 3:
             f, g = rng.choice(FLAGS), rng.choice(FLAGS)
             out.append(rng.choice([f"#ifdef {f}", f"#ifndef {f}", f"#if defined({f}) && !defined({g})",
@@ -442,7 +465,7 @@ class C06(Check):
             "file symlinks (source and non-source names), dangling and directory symlinks, 0-4 platforms each with 0-3 compile "
             "commands and random -D sets, in 30 % of the multi-platform cases a -p selection of a proper subset, in 40 % one translation unit compiled 2-3 times with equal -D lists but different -I directories holding a same-named header of different content (by #include or -include) or different forced includes; an exhaustive block of every placement of <= 3 files over 3 positions x 3 contents x "
             "3 platform layouts x link/no link; a malformed stream (unbalanced files, empty code base, missing compiled file). "
-            "A case is non-trivial if the setmap has >= 2 platform sets, some directory has >= 2 files below it and at least one "
+            "About 9 % of the generated lines are multi-line directives (#define/#undef/#pragma/#if/#ifdef/#else) whose physical extent contains a line that cleans to blank (comment-only or empty continuation, block comment closed on the next line). A case is non-trivial if the setmap has >= 2 platform sets, some directory has >= 2 files below it and at least one "
             "file or line is unused")
     assumptions = [
         "a node counts exactly the lines it lists and no physical line is listed by two nodes (C05; checked on every case as hyp.wf)",
@@ -683,6 +706,10 @@ class C06(Check):
         dp = max([len(a[0]) for a in attr] or [0])
         self.hist["depth"][dp] = self.hist["depth"].get(dp, 0) + 1
         self.hist["links"] += sum(1 for a in attr if a[1])
+        holes = sum(1 for a in attr for n in a[4] if n[0] and n[0][-1] - n[0][0] + 1 > len(n[0]))
+        if holes:
+            self.hist["cases_with_node_extent_holes"] = self.hist.get("cases_with_node_extent_holes", 0) + 1
+            self.hist["nodes_with_extent_holes"] = self.hist.get("nodes_with_extent_holes", 0) + holes
         if case.get("select"):
             self.hist["select_cases"] = self.hist.get("select_cases", 0) + 1
         seen_tu = {}
